@@ -84,7 +84,7 @@ func TestVFC16History(t *testing.T) {
 		var seen []string
 		w, werr := vfNewWorld(&vfWorldConf{
 			ProtectionEnabled: true, FilteringEnabled: true, ServerName: vfC16HistServerName, TLSCert: cert,
-			UpstreamAddr: pc.LocalAddr().String(),
+			UpstreamAddr:  pc.LocalAddr().String(),
 			StrictSNI:     rapid.Bool().Draw(t, "strict_sni"),
 			OnApplyClient: func(id string, _ netip.Addr) { mu.Lock(); seen = append(seen, id); mu.Unlock() },
 		})
